@@ -3,7 +3,11 @@ pub mod cldb;
 pub mod cldb_hierarchy;
 /// CLVM running.
 pub mod clvm;
+#[cfg(not(chialisp_verif))]
 mod codegen;
+/// Code generation, exposed to the verification harness (assign-form staging).
+#[cfg(chialisp_verif)]
+pub mod codegen;
 /// CompilerOpts which is the main holder of toplevel compiler state.
 #[allow(clippy::module_inception)]
 pub mod compiler;
